@@ -296,6 +296,7 @@ type callRes struct {
 	class       int // 0 resp, 1 timeout, 2 overflow, 3 conn error, 8 never returned
 	echo        bool
 	ret         time.Time
+	start       time.Time // when the call was made (a deadline already in the past means: return at once)
 	done        chan struct{}
 }
 
@@ -317,7 +318,7 @@ func startCall(pc *fasthttp.PipelineClient, path string, hasDeadline bool, deadl
 	if len(flav) > 0 {
 		fl = flav[0]
 	}
-	cr := &callRes{hasDeadline: hasDeadline, deadline: deadline, path: path, class: 8, done: make(chan struct{})}
+	cr := &callRes{hasDeadline: hasDeadline, deadline: deadline, path: path, class: 8, done: make(chan struct{}), start: time.Now()}
 	go func() {
 		req := fasthttp.AcquireRequest()
 		resp := fasthttp.AcquireResponse()
@@ -375,7 +376,11 @@ func obsTerm(cr *callRes, returned bool, seen bool) (string, string) {
 		class = 8
 		late = 5000
 	} else if cr.hasDeadline {
-		late = cr.ret.Sub(cr.deadline).Milliseconds()
+		ref := cr.deadline
+		if cr.start.After(ref) {
+			ref = cr.start
+		}
+		late = cr.ret.Sub(ref).Milliseconds()
 		if late < 0 {
 			late = 0
 		}
